@@ -159,6 +159,31 @@ var (
 	hookGCSent, hookGCDone, hookFreeSent, hookFreeDone int64
 )
 
+var hookSlowGC int32
+
+// gcBacklogInput is an explicit history in which one old snapshot stays open while [n] newer ones are
+// created and closed (each retiring one deleted item), so that the pass after the old snapshot's Close
+// hands over more garbage lists than the collector's channel holds while the workers are slow.
+func gcBacklogInput(cmp int, mm bool, n int) *mvInput {
+	in := &mvInput{Mode: "mvcc", Cmp: cmp, MM: mm, Drains: true}
+	key := func(j int) []int {
+		if cmp == 1 {
+			return b2i(nitro.KVToBytes([]byte{byte(1 + j/250), byte(1 + j%250)}, []byte{7}))
+		}
+		return []int{1 + j/250, 1 + j%250}
+	}
+	in.Ops = append(in.Ops, mvOp{Op: "neww"})
+	for j := 0; j < n+20; j++ {
+		in.Ops = append(in.Ops, mvOp{Op: "put", W: 0, Bs: key(j)})
+	}
+	in.Ops = append(in.Ops, mvOp{Op: "snap"}) // snapshot 1 stays open
+	for j := 0; j < n; j++ {
+		in.Ops = append(in.Ops, mvOp{Op: "del", W: 0, Bs: key(j)}, mvOp{Op: "snap"}, mvOp{Op: "close", Sn: 2 + j})
+	}
+	in.Ops = append(in.Ops, mvOp{Op: "close", Sn: 1}, mvOp{Op: "gc"}, mvOp{Op: "drain", ID: 1}, mvOp{Op: "count"})
+	return in
+}
+
 func installCounterHook() {
 	nitro.VerifYieldHook = func(p int) {
 		switch p {
@@ -166,6 +191,9 @@ func installCounterHook() {
 			atomic.AddInt64(&hookGCSent, 1)
 		case nitro.VerifPtGCDone:
 			atomic.AddInt64(&hookGCDone, 1)
+			if atomic.LoadInt32(&hookSlowGC) != 0 {
+				time.Sleep(300 * time.Microsecond) // backlog histories: the workers fall behind the collector
+			}
 		case nitro.VerifPtFreeSent:
 			atomic.AddInt64(&hookFreeSent, 1)
 		case nitro.VerifPtFreeDone:
@@ -1123,6 +1151,14 @@ func mvCommandTie(prop, mode, tie string, rule string) func(a runArgs) error {
 			case "gc":
 				in.Mode = "mvcc"
 				in.Drains = true
+				if i%150 == 0 {
+					in = gcBacklogInput(in.Cmp, in.MM, 270+top.Intn(60))
+					sink.Begin(in)
+					atomic.StoreInt32(&hookSlowGC, 1)
+					runMvcc(in, r, 0, sink, true, true)
+					atomic.StoreInt32(&hookSlowGC, 0)
+					break
+				}
 				sink.Begin(in)
 				runMvcc(in, r, n, sink, false, true)
 			case "backup":
